@@ -93,6 +93,12 @@ func isCollectionsRecv(fn *ssa.Function) bool {
 	}
 	t := deref(f.Signature.Recv().Type())
 	if n, ok := t.(*types.Named); ok && n.Obj().Pkg() != nil {
+		// an Iterator / KeySetIterator is a read-only cursor over the range that Iterate (a
+		// read of the collection, recorded at the Iterate site) opened: its methods
+		// (Valid, Next, Key, Value, KeyValue, Close, ...) are not accesses of a collection field
+		if strings.HasSuffix(n.Obj().Name(), "Iterator") {
+			return false
+		}
 		return n.Obj().Pkg().Path() == "cosmossdk.io/collections"
 	}
 	return false
